@@ -549,7 +549,7 @@ static void enumerate(void) {
 	}
 	if (vf_bound_on("lagrange")) {
 		long qs[] = {5, 7, 251, 257, 65521};
-		for (unsigned qi = 0; qi < 5; qi++) for (int n = 1; n <= 5; n++) for (long s = 0; s < 12; s++) if (vf_mine()) {
+		for (unsigned qi = 0; qi < 5; qi++) for (int n = 0; n <= 5; n++) for (long s = 0; s < 12; s++) if (vf_mine()) { /* n = 0: the empty product 1 */
 			K.op = "lag"; mpz_set_si(K.v[0], qs[qi]); mpz_set_si(K.v[1], n);
 			for (int i = 0; i < n; i++) mpz_set_si(K.v[2 + i], (s * (i + 3) * 7 + i * i + (s == 0 ? 0 : 1)) % qs[qi]);
 			mpz_set_si(K.v[2 + n], (s * 11 + 2) % qs[qi]); K.n = 3 + n; vf_run(&K); }
